@@ -162,7 +162,21 @@ def worker_main(args):
         if hasattr(prop, 'worker'):
             failure = prop.worker(ctx, examples)
         else:
-            failure = hyp_search(ctx, prop.strategy(ctx), examples)
+            # a shrunk failure that turns out to be a KNOWN finding must not end the search: restart with a new
+            # derived seed for the remaining budget (at most 6 times)
+            for attempt in range(6):
+                before = ctx.evals
+                failure = hyp_search(ctx, prop.strategy(ctx), max(50, examples - ctx.evals) if attempt else examples)
+                if failure is None:
+                    break
+                kf = ctx.findings.match(prop.ID, failure[2])
+                if kf is None:
+                    break
+                ctx.known_seen[kf['id']] += 1
+                failure = None
+                ctx.widx += 1000
+                if ctx.evals >= examples or (ctx.deadline and time.time() > ctx.deadline):
+                    break
     except Exception:
         err = traceback.format_exc()
     finally:
